@@ -19,17 +19,21 @@ ENGINE = {'name': 'throttle',
          '(b) n/5 configurations through the real Provision (negative/zero/small/large rates and bursts) and n/5 runs of the real '
          'Handle + throttledConn.Read over a scripted inner connection (bursts 1..40 at 20-30 MB/s so that waits are microseconds; Read lengths '
          '0, 1..80, 4096; inner connection hands over at most chunk bytes): observed the length of the slice given to every inner Read and the '
-         'count returned, and - with refill rates of 2^-20 B/s - the tokens taken from each limiter; non-trivial = some batch was clipped by a '
+         'count returned (half the inner connections end their stream with an error delivered together with the last bytes or alone: io.EOF or a '
+         'reset), what every Read(p) itself returned, and - in half the runs - a layer4 connection that already holds 1..60 prefetched bytes '
+         '(after a real matcher round, partly consumed by an earlier read) which must come first; - with refill rates of 2^-20 B/s - the tokens taken from each limiter; non-trivial = some batch was clipped by a '
          'burst or the ledger was observed. (c) 16 (quick) / 48 (thorough) real-time runs in parallel goroutines: '
          'rates 1-200 kB/s, bursts 1-64 KiB or default, latency 0-200 ms, 1-8 connections sharing a total limit, reader buffers 1 B-64 KiB; these '
-         'are oracle-only (no Coq term). distinct = distinct Coq terms',
+         'are oracle-only (no Coq term); before them, on one P with the collector off, three rounds of: a connection cancelled during its '
+         'latency wait, a pause longer than the latency, four new connections that must each wait the whole latency. distinct = distinct Coq terms',
  'trusted_base': ['math/big is used by the harness to convert TokensAt (float64) into integer model units exactly',
                   'time.Timer never fires early and time.Now is monotonic (the real-time check is one-sided: the observer reads its clock before '
                   'calling Read for t0 and at entry of the inner Read for each sample)'],
  'modelled': ['golang.org/x/time/rate v0.7.0: NewLimiter, advance, reserveN, ReserveN/DelayFrom, TokensAt, WaitN (no deadline, not cancelled), '
               'durationFromTokens truncation, limit 0 and limit Inf, instants that go backwards',
               'modules/l4throttle/throttle.go: Provision (defaults, validation, when each limiter exists), Handle (wrap, latency wait, cancellation '
-              'during the wait, then next.Handle), throttledConn.Read (batch size, total limiter then local limiter, inner Read of at most batch)',
+              'during the wait, then next.Handle), throttledConn.Read (batch size, total limiter then local limiter, inner Read of at most batch; '
+              'the result is the inner result: bytes and error together), layer4.Connection.Read in front of it (buffered bytes first: cx_plan)',
               'not modelled: Reservation.Cancel / context cancellation while waiting inside WaitN, SetLimit/SetBurst, float64 rounding on '
               'non-dyadic rates, Caddyfile parsing (C15), writes (not throttled)'],
  'assumptions': ['throttle_bound holds with one nanosecond of slack: bytes <= burst + rate*(T - t0 + 1ns), because durationFromTokens truncates the '
